@@ -1,11 +1,11 @@
 #!/bin/bash
 # developer aid: stage round-r deliverables of a sub-agent (/tmp/w<r>_<PID>/_seed/{change,demo,notes}{1,2}) as changes k=2r-1, 2r for devtools_seed.py
-pid=$1; r=$2
+pid=$1; r=$2; d=${3:-$2}  # d: round number in the directory name when it differs
 mkdir -p /tmp/wt_$pid/_seed
 for k in 1 2; do
   n=$((2*r-2+k))
   for f in change$k.diff:change$n.diff demo$k.py:demo$n.py notes$k.md:notes$n.md; do
-    cp /tmp/w${r}_$pid/_seed/${f%%:*} /tmp/wt_$pid/_seed/${f##*:} 2>/dev/null || echo "missing ${f%%:*}"
+    cp /tmp/w${d}_$pid/_seed/${f%%:*} /tmp/wt_$pid/_seed/${f##*:} 2>/dev/null || echo "missing ${f%%:*}"
   done
 done
 ls /tmp/wt_$pid/_seed
